@@ -181,3 +181,25 @@ def implies(desc_, truth, atom, atom_truth=True):
             return implies(a, True, atom, atom_truth) and implies(b, True, atom, atom_truth)
         return implies(a, False, atom, atom_truth) or implies(b, False, atom, atom_truth)
     return False
+
+
+def eval_cond(desc_, env):
+    """three-valued evaluation of a condition description under a partial assignment of its atoms (None = unknown)"""
+    d = desc_
+    if d.startswith("Not "):
+        v = eval_cond(d[4:], env)
+        return None if v is None else (not v)
+    if d in env:
+        return env[d]
+    sp = _split_top(d)
+    if sp is None:
+        return None
+    a, op, b = sp
+    va, vb = eval_cond(a, env), eval_cond(b, env)
+    if op == "&&":
+        if va is False or vb is False:
+            return False
+        return True if (va is True and vb is True) else None
+    if va is True or vb is True:
+        return True
+    return False if (va is False and vb is False) else None
